@@ -176,7 +176,66 @@ def lens_section(ctx):
     ctx.cover('lens.three_values_reachable', [M == 3, ell(0) == 2, ell(1) == 1, ell(2) == 2])
 
 
+# ================================================================================================ zipper
+def zipper_section(ctx):
+    """zipper(*values): every value is read as a sequence (its elements when iterable, [value] otherwise); lens by contract; length-1 sequences are
+    repeated n times; zip.  Spec from the statement: equal-length sequences are zipped, scalars and length-1 sequences broadcast, ValueError when two
+    sequences have different lengths neither of which is 1."""
+    from pyvc.th_cont import is_iter
+    m = ctx.mod('_zip')
+    fn = m.func('zipper')
+    if fn.args.vararg is None:
+        raise SelectorError('zipper no longer takes *values')
+    M = Int('NZIP')
+    VALS = Function('ZVALUE', IntSort(), Val)
+    values = SV('cvs', None, n=M, at=lambda st, k: CV(VALS(k)))
+    ex = Exec(m, [Conts(), TypePreds()], name='zipper')
+    st = State(env={fn.args.vararg.arg: values})
+    k0 = Int('k!d')
+    st.pc += [M >= 0, ForAll([k0], And(LEN(SEQ(VALS(k0))) >= 0, TAG(VALS(k0)) >= 0, TAG(VALS(k0)) <= 5))]
+    outs = ex.run_block(st, strip_doc(fn.body))
+    ctx.absorb(ex)
+    ctx.record_function(m, 'zipper', fn, ex.stmts_executed)
+    # the specification's view of value j as a sequence
+    it = lambda j: is_iter(CV(VALS(j)))
+    slen = lambda j: If(it(j), LEN(SEQ(VALS(j))), 1)
+    sat_ = lambda j, k: If(it(j), VA(SEQ(VALS(j)), k), VALS(j))
+    a, b, k = Ints('A B K')
+    differ = lambda p, q: And(0 <= p, p < M, 0 <= q, q < M, slen(p) != 1, slen(q) != 1, slen(p) != slen(q))
+    wit = dict(site=IntVal(0))
+    nret = 0
+    for o in outs:
+        hy = ex.facts + o.st.pc
+        if o.kind == 'raise':
+            p, q = Ints('p!z q!z')
+            ctx.post('zipper.raises_%s_only_when_two_lengths_other_than_1_differ' % o.val, hy, And(BoolVal(o.val == 'ValueError'), Exists([p, q], differ(p, q))),
+                     witness=wit, replay=rp('zipper'))
+            continue
+        if o.kind != 'return' or o.val.kind != 'zipof':
+            raise OutOfSubset('zipper: unexpected outcome %s' % o.kind)
+        nret += 1
+        z = o.val
+        s2 = o.st.fork()
+        fa = z.at(s2, a)                     # the a-th sequence handed to zip
+        n = Int('N_COMMON')                  # the common length: the spec's own definition
+        ndef = [Implies(M == 0, n == 0), ForAll([k0], Implies(And(0 <= k0, k0 < M, slen(k0) != 1), n == slen(k0))),
+                Implies(And(M > 0, ForAll([k0], Implies(And(0 <= k0, k0 < M), slen(k0) == 1))), n == 1)]
+        hy2 = ex.facts + s2.pc + ndef
+        ctx.post('zipper.returns_only_when_lengths_agree', hy2, Not(differ(a, b)), witness=wit, replay=rp('zipper'))
+        ctx.post('zipper.one_sequence_per_value', hy2, z.n == M, witness=wit, replay=rp('zipper'))
+        ctx.post('zipper.every_sequence_has_the_common_length', hy2 + [0 <= a, a < M, n >= 1], seq_len(fa) == n, witness=wit, replay=rp('zipper'))
+        ctx.post('zipper.empty_result_when_a_sequence_is_empty', hy2 + [M > 0, n == 0], Exists([k0], And(0 <= k0, k0 < M, slen(k0) == 0)), witness=wit, replay=rp('zipper'))
+        ctx.post('zipper.empty_sequence_stays_empty', hy2 + [0 <= a, a < M, n == 0, slen(a) == 0], seq_len(fa) == 0, witness=wit, replay=rp('zipper'))
+        ctx.post('zipper.elements_are_matched_or_broadcast', hy2 + [0 <= a, a < M, 0 <= k, k < n],
+                 seq_at(fa, k) == If(slen(a) == n, sat_(a, k), sat_(a, 0)), witness=wit, replay=rp('zipper'))
+    if nret == 0:
+        raise OutOfSubset('zipper has no returning path')
+    ctx.cover('zipper.broadcast_reachable', [M == 3, slen(0) == 3, slen(1) == 1, slen(2) == 3, Not(it(1))])
+    ctx.trust('zip axiom: the result of zipper is zip(*sequences): min(len) tuples, the k-th holding the k-th element of every sequence')
+
+
 def build(ctx):
     frame_section(ctx)
+    ctx.guarded('zipper', lambda: zipper_section(ctx))
     ctx.guarded('as_list', lambda: aslist_section(ctx))
     ctx.guarded('lens', lambda: lens_section(ctx))
